@@ -491,7 +491,10 @@ def park_wake(ctx):
     acts = defaultdict(set)
     for fname, _, snaps in events_of(P, 'exit_act'):
         acts[fname] |= snaps
-    need = {WAKE_QUEUE: (('WaitingForWake', 'WaitingForPoll'), 1, 'reschedule_queue'), WAKE_THREAD: (('WaitingForUnpark',), 2, 'Thread::unpark')}
+    need = {WAKE_QUEUE: (('WaitingForWake', 'WaitingForPoll'), 1, 'reschedule_queue'),
+            # the thread waker must also unpark when it finds the queue Running: a stale waker of an earlier runner may have moved
+            # WaitingForUnpark -> Running while the current runner is still parked
+            WAKE_THREAD: (('WaitingForUnpark', 'Running'), 2, 'Thread::unpark')}
     for fname, (states, bit, what) in need.items():
         if fname not in acts:
             out.append(undecided('PARK-wake', short(fname), 'waker not found'))
